@@ -135,7 +135,16 @@ SameContent(a, b) == \A v \in {a[k] : k \in DOMAIN a} \cup {b[k] : k \in DOMAIN 
 \* too-small supercells.  kin = the solute-vacancy pair states within the kinetic range, [i, dX] (solute site,
 \* separation on the primitive grid): the supercell is too small as soon as two of them are the same
 \* configuration of the supercell, or the vacancy of one falls on (an image of) the solute
+\* Ties are designed out: two aliased states that BOTH lie in the closed half cell (supercell coordinates of the
+\* separation all within [-1/2, 1/2]) differ by +-1 exactly on the cell boundary; whether such a pair counts is a
+\* matter of rounding and is not demanded.  An aliased pair counts when one of its members lies strictly outside.
+OutsideHalfCell(q, dX) == LET P == ToSuper(q.S, dX) IN \E a \in DOMAIN P : 2 * Abs(P[a]) > Dn(q)
 KineticAliased(q, kin) ==
-  \/ \E n \in DOMAIN kin : kin[n].dX # VZero(q.w.dim) /\ SitePoint(q, kin[n].dX) = VZero(q.w.dim)
-  \/ Cardinality({<<kin[n].i, SitePoint(q, kin[n].dX)>> : n \in DOMAIN kin}) < Len(kin)
+  LET key == [n \in DOMAIN kin |-> <<kin[n].i, SitePoint(q, kin[n].dX)>>]
+      out == {n \in DOMAIN kin : OutsideHalfCell(q, kin[n].dX)}
+  IN \/ \E n \in DOMAIN kin : kin[n].dX # VZero(q.w.dim) /\ SitePoint(q, kin[n].dX) = VZero(q.w.dim)
+     \/ \E n \in out : \E m \in DOMAIN kin : m # n /\ key[m] = key[n]
+\* (any aliasing at all, ties included: reported as a measured fact only)
+KineticAliasedAtAll(q, kin) ==
+  Cardinality({<<kin[n].i, SitePoint(q, kin[n].dX)>> : n \in DOMAIN kin}) < Len(kin)
 =============================================================================
